@@ -118,9 +118,12 @@ def triage(ck, fam, cases, verdicts, wfs, clause, nontrivial, oracle_ok=lambda c
             def pred(s):
                 r = exec_script(ck, s, "shr")
                 return not oracle_ok(r) and not (known_match and known_match(r))
-            small = shrink(ck, c["script"], pred)
-            r = exec_script(ck, small, "shr")
-            if oracle_ok(r):
+            if "actions" in c["script"] or "concurrent" in c["script"]:
+                small = shrink(ck, c["script"], pred)
+                r = exec_script(ck, small, "shr")
+                if oracle_ok(r):
+                    small, r = c["script"], c
+            else:
                 small, r = c["script"], c
             mv = None
             if r.get("coq") is not None:
@@ -146,10 +149,15 @@ def triage(ck, fam, cases, verdicts, wfs, clause, nontrivial, oracle_ok=lambda c
                 return False
             vv, _, _ = corr.eval_cases(ck.prop + "-shr", module, ctype, fn, [r["coq"]])
             return vv[0] != 0
-        small = shrink(ck, c["script"], pred, budget=40)
-        r = exec_script(ck, small, "shr")
-        vv, _, _ = corr.eval_cases(ck.prop + "-one", module, ctype, fn, [r["coq"]])
-        if vv[0] == 0:
+        if "actions" in c["script"] or "concurrent" in c["script"]:
+            small = shrink(ck, c["script"], pred, budget=40)
+            r = exec_script(ck, small, "shr")
+            vv = [0]
+            if r.get("coq") is not None:
+                vv, _, _ = corr.eval_cases(ck.prop + "-one", module, ctype, fn, [r["coq"]])
+            if vv[0] == 0:
+                small, r, vv = c["script"], c, [verdicts[i]]
+        else:
             small, r, vv = c["script"], c, [verdicts[i]]
         path = ck.write_replay(fam + "-correspondence", {
             "property": ck.prop,
